@@ -54,6 +54,10 @@ CHECKS.update({
    text="Explicit-state search over an instance holding 2-4 databases on its shared event bus plus a remote writer: write, load, remote write and message delivery in every order up to the depth bound; after every action every database not named by the action must be unchanged (entries, heads, view, cached heads, replication status, emitted events) and every message and store event must carry only its own database's address and entries.",
    note="Trusted: sim environment; the instance bus is the real libp2p bus wrapped only for observation.",
    tech="explicit-state DFS by replay over the real implementation with frame-condition (non-interference) oracle at every step"),
+ "C05": dict(cat="model_checking", ref="5/C05",
+   text="All histories up to the depth bound of local writes, remote writes, syncs and snapshot saves on a replica (three store types); for every history EVERY prefix of the replica's ordered persistence-effect log (block writes, cache puts, keystore puts) is turned into a crash image from which the database is reopened and loaded in isolation; recovered entries must include every acknowledged entry, only written entries, be closed under ancestry and show the reference state; identity unchanged and writable. Clean close/reopen cycles run on real leveldb directories.",
+   note="Trusted: each effect is atomic and durable on return (property's assumption); effects are observed at the simulated cache/keystore/blockstore seams. On-disk part covers clean shutdowns only.",
+   tech="exhaustive crash-point enumeration (every prefix of the persistence-effect log of every explored history) with recovery on the real implementation"),
 })
 NOT_APPLICABLE = []
 ALL = ["C%02d" % i for i in range(1, 21)]
